@@ -3,7 +3,9 @@ package c17
 // C17 Block-size estimation equals the exact serialized directory size (hook H1).
 //
 // A BasicDirectory in SizeEstimationBlock mode is driven through generated adds, replacements,
-// removals (present / missing), refused adds (maxLinks) and reloads from its node; after
+// removals (present / missing), refused adds (maxLinks; children the dag-pb node rejects because
+// their cumulative size exceeds 2^63-1) and reloads from its node, with block mode selected per
+// instance or through the package-global HAMTSizeEstimation; after
 // construction and after every step the tracked estimate (read through the verif-tagged bridge
 // BasicDirectory.VerifEstimatedSize) must equal len(GetNode().RawData()).
 //
@@ -14,6 +16,7 @@ import (
 	"context"
 	"errors"
 	"fmt"
+	"math"
 	"os"
 	"strings"
 	"testing"
@@ -23,6 +26,7 @@ import (
 	mdtest "github.com/ipfs/boxo/ipld/merkledag/test"
 	uio "github.com/ipfs/boxo/ipld/unixfs/io"
 	cid "github.com/ipfs/go-cid"
+	ipld "github.com/ipfs/go-ipld-format"
 	mh "github.com/multiformats/go-multihash"
 	"pgregory.net/rapid"
 	"verif/kit"
@@ -34,6 +38,13 @@ type Op struct {
 	Kind  string        `json:"kind"` // add | remove | reload
 	Name  int           `json:"name"` // index into Names; -1 = a name that is never added
 	Child kit.ChildSpec `json:"child"`
+	// Oversize (add only): the child is a legal dag-pb node whose cumulative Size() exceeds
+	// 2^63-1 (one link with Tsize close to MaxInt64 plus its own bytes), so the directory's
+	// dag-pb node refuses the link ("Tsize is too large"): an add attempt that fails.
+	Oversize bool `json:"oversize,omitempty"`
+	// NoInherit (reload only, honoured only with Case.GlobalBlock): the loaded directory is used
+	// as loaded, without the SetSizeEstimationMode call (the global already says block mode).
+	NoInherit bool `json:"no_inherit,omitempty"`
 }
 
 type Case struct {
@@ -49,7 +60,14 @@ type Case struct {
 	CidV1     bool   `json:"cid_v1"`    // CID builder of the directory itself
 	MaxLinks  int    `json:"max_links"` // 0 = unlimited
 	Dynamic   bool   `json:"dynamic"`   // drive the BasicDirectory through a DynamicDirectory wrapper
-	Ops       []Op   `json:"ops"`
+	// GlobalBlock: block-size estimation is selected the way an application does it at start-up
+	// (package variable HAMTSizeEstimation = SizeEstimationBlock, e.g. UnixFSProfile.ApplyGlobals)
+	// for the duration of the case, so directories loaded from a node are in block mode from
+	// the moment they are constructed. NoModeOpt (only with GlobalBlock): the directory is
+	// created without the per-instance WithSizeEstimationMode option.
+	GlobalBlock bool `json:"global_block,omitempty"`
+	NoModeOpt   bool `json:"no_mode_opt,omitempty"`
+	Ops         []Op `json:"ops"`
 }
 
 func permsToFileMode(p uint32) os.FileMode {
@@ -192,6 +210,10 @@ func gen(t *rapid.T) Case {
 		c.MaxLinks = rapid.IntRange(1, nn).Draw(t, "maxlinks")
 	}
 	c.Dynamic = rapid.IntRange(0, 3).Draw(t, "dyn") == 0
+	c.GlobalBlock = rapid.Bool().Draw(t, "globalblock")
+	if c.GlobalBlock {
+		c.NoModeOpt = rapid.Bool().Draw(t, "nomodeopt")
+	}
 	nops := rapid.IntRange(1, kit.Scale(25, 40)).Draw(t, "nops")
 	present := map[int]bool{}
 	for i := 0; i < nops; i++ {
@@ -210,8 +232,13 @@ func gen(t *rapid.T) Case {
 			} else {
 				idx = rapid.IntRange(0, len(c.Names)-1).Draw(t, "name")
 			}
-			c.Ops = append(c.Ops, Op{Kind: "add", Name: idx, Child: genChild(t)})
-			if !(c.MaxLinks > 0 && !c.Dynamic && !present[idx] && len(have) >= c.MaxLinks) {
+			op := Op{Kind: "add", Name: idx, Child: genChild(t)}
+			op.Oversize = rapid.IntRange(0, 7).Draw(t, "oversize") == 0
+			c.Ops = append(c.Ops, op)
+			if op.Oversize {
+				// refused by the dag-pb node; a refused replacement has already dropped the old entry
+				delete(present, idx)
+			} else if !(c.MaxLinks > 0 && !c.Dynamic && !present[idx] && len(have) >= c.MaxLinks) {
 				present[idx] = true
 			}
 		case k <= 8: // remove, mostly present
@@ -230,10 +257,41 @@ func gen(t *rapid.T) Case {
 				delete(present, idx)
 			}
 		default:
-			c.Ops = append(c.Ops, Op{Kind: "reload"})
+			op := Op{Kind: "reload"}
+			if c.GlobalBlock {
+				op.NoInherit = rapid.Bool().Draw(t, "noinherit")
+			}
+			c.Ops = append(c.Ops, op)
 		}
 	}
 	return c
+}
+
+var oversizeFiller = func() cid.Cid {
+	h, _ := mh.Sum([]byte("verif-filler"), mh.SHA2_256, -1)
+	return cid.NewCidV0(h)
+}()
+
+// oversizeChild builds a legal dag-pb node (CID per the spec's prefix: v0, or v1 dag-pb with
+// the prefix's hash) holding one link whose Tsize is a legal value just below 2^63, so that
+// the node's own cumulative Size() does not fit into an int64. ok=false if it does fit.
+func oversizeChild(spec kit.ChildSpec) (*mdag.ProtoNode, bool) {
+	p := spec.Prefix.Prefix()
+	nd := mdag.NodeWithData([]byte{byte(spec.Salt), byte(spec.Salt >> 8), 0xee})
+	if p.Version == 0 {
+		nd.SetCidBuilder(nil)
+	} else {
+		pp := p
+		pp.Codec = cid.DagProtobuf
+		if err := nd.SetCidBuilder(pp); err != nil {
+			return nil, false
+		}
+	}
+	if err := nd.AddRawLink("big", &ipld.Link{Size: math.MaxInt64 - uint64(spec.Salt%8), Cid: oversizeFiller}); err != nil {
+		return nil, false
+	}
+	sz, err := nd.Size()
+	return nd, err == nil && sz > math.MaxInt64
 }
 
 // ---------------------------------------------------------------------------
@@ -266,7 +324,15 @@ func run(c Case) kit.Result {
 	if c.HasMtime {
 		mtime = time.Unix(c.Sec, c.Nsec)
 	}
-	opts := []uio.DirectoryOption{uio.WithSizeEstimationMode(uio.SizeEstimationBlock), uio.WithStat(mode, mtime)}
+	if c.GlobalBlock {
+		// cases run one at a time in this process; restored before the next case
+		defer func(old uio.SizeEstimationMode) { uio.HAMTSizeEstimation = old }(uio.HAMTSizeEstimation)
+		uio.HAMTSizeEstimation = uio.SizeEstimationBlock
+	}
+	opts := []uio.DirectoryOption{uio.WithStat(mode, mtime)}
+	if !(c.GlobalBlock && c.NoModeOpt) {
+		opts = append(opts, uio.WithSizeEstimationMode(uio.SizeEstimationBlock))
+	}
 	if c.CidV1 {
 		opts = append(opts, uio.WithCidBuilder(cid.V1Builder{Codec: cid.DagProtobuf, MhType: mh.SHA2_256}))
 	}
@@ -322,12 +388,47 @@ func run(c Case) kit.Result {
 	model := map[int]ent{}
 	const missing = "never-added-name"
 	replClassChange, reloads, refused := false, 0, 0
+	rejected, rejectedRepl, opsAfterReject, metaReloadGlobal := 0, 0, 0, 0
 	for i, op := range c.Ops {
 		when := fmt.Sprintf("op %d (%s)", i, op.Kind)
 		switch op.Kind {
 		case "add":
 			if op.Name < 0 || op.Name >= len(c.Names) {
 				return kit.Result{}
+			}
+			if op.Oversize {
+				// An add attempt the dag-pb node refuses. Whether the call fails, and what a
+				// failed replacement leaves behind, is not this property's business: the model
+				// follows the directory; the estimate must match the block that is there.
+				child, ok := oversizeChild(op.Child)
+				if !ok {
+					return kit.Result{}
+				}
+				_, had := model[op.Name]
+				err := dir.AddChild(ctx, c.Names[op.Name], child)
+				nd, gerr := dir.GetNode()
+				if gerr != nil {
+					return kit.Fail("%s: GetNode: %v", when, gerr)
+				}
+				pn, ok := nd.(*mdag.ProtoNode)
+				if !ok {
+					return kit.Result{Classes: []string{"became-hamt"}}
+				}
+				if l, lerr := pn.GetNodeLink(c.Names[op.Name]); lerr == nil {
+					model[op.Name] = ent{l.Size}
+				} else {
+					delete(model, op.Name)
+				}
+				if err != nil {
+					rejected++
+					if had {
+						rejectedRepl++
+					}
+				}
+				break
+			}
+			if rejected > 0 {
+				opsAfterReject++
 			}
 			child, ts := kit.MakeChild(op.Child)
 			old, had := model[op.Name]
@@ -374,12 +475,18 @@ func run(c Case) kit.Result {
 				return kit.Fail("%s: basic directory node is %T", when, nd)
 			}
 			reloads++
+			inherit := !(c.GlobalBlock && op.NoInherit)
+			if c.GlobalBlock && (mode != 0 || c.HasMtime) {
+				metaReloadGlobal++
+			}
 			if c.Dynamic {
 				d, err := uio.NewDirectoryFromNode(ds, pn)
 				if err != nil {
 					return kit.Fail("%s: NewDirectoryFromNode: %v", when, err)
 				}
-				d.SetSizeEstimationMode(uio.SizeEstimationBlock)
+				if inherit {
+					d.SetSizeEstimationMode(uio.SizeEstimationBlock)
+				}
 				b, ok := d.(*uio.DynamicDirectory).Directory.(*uio.BasicDirectory)
 				if !ok {
 					return kit.Fail("%s: reloaded basic node is a %T", when, d.(*uio.DynamicDirectory).Directory)
@@ -387,7 +494,9 @@ func run(c Case) kit.Result {
 				dir, bd = d, b
 			} else {
 				b := uio.NewBasicDirectoryFromNode(ds, pn.Copy().(*mdag.ProtoNode))
-				b.SetSizeEstimationMode(uio.SizeEstimationBlock)
+				if inherit {
+					b.SetSizeEstimationMode(uio.SizeEstimationBlock)
+				}
 				b.SetMaxLinks(c.MaxLinks)
 				dir, bd = b, b
 			}
@@ -433,6 +542,21 @@ func run(c Case) kit.Result {
 	if refused > 0 {
 		cls = append(cls, "maxlinks-refusal")
 	}
+	if c.GlobalBlock {
+		cls = append(cls, "block-mode-from-global")
+	}
+	if metaReloadGlobal > 0 {
+		cls = append(cls, "reload-with-metadata-under-global-block-mode")
+	}
+	if rejected > 0 {
+		cls = append(cls, "add-rejected-by-node(tsize-overflow)")
+	}
+	if rejectedRepl > 0 {
+		cls = append(cls, "replacement-rejected-by-node")
+	}
+	if opsAfterReject > 0 {
+		cls = append(cls, "adds-after-rejected-add")
+	}
 	if mismatchOutside > 0 {
 		cls = append(cls, fmt.Sprintf("mismatch-outside-domain-modeclass%d(counted,not asserted)", c.ModeClass))
 	}
@@ -442,12 +566,12 @@ func run(c Case) kit.Result {
 			break
 		}
 	}
-	return kit.Result{NonTrivial: inDomain && (replClassChange || negOrSub), Classes: cls}
+	return kit.Result{NonTrivial: inDomain && (replClassChange || negOrSub || rejected > 0 || metaReloadGlobal > 0), Classes: cls}
 }
 
 var spec = kit.Spec[Case]{
 	Prop: "C17", Name: "main",
-	Rule:  "BasicDirectory in block-size mode (directly or inside a DynamicDirectory), mode 0..07777, mtime over sign/nanosecond classes, 1-10 names of 0..300 bytes (varint boundaries), targets over CIDv0/v1 x hash lengths (incl. truncated, identity) with Tsize over varint length classes 0..2^63-1, 1-25 (thorough 40) ops add/replace/remove/remove-missing/reload; estimate == len(RawData()) after every step; non-trivial = a replacement changed the Tsize varint class, or the mtime is negative / has nanoseconds (mode classes with type bits are executed but only counted)",
+	Rule:  "BasicDirectory in block-size mode (directly or inside a DynamicDirectory), mode 0..07777, mtime over sign/nanosecond classes, 1-10 names of 0..300 bytes (varint boundaries), targets over CIDv0/v1 x hash lengths (incl. truncated, identity) with Tsize over varint length classes 0..2^63-1, 1-25 (thorough 40) ops add/replace/remove/remove-missing/reload/add refused by the dag-pb node (child whose cumulative size exceeds 2^63-1); block mode chosen per instance or (half the cases) through the package-global HAMTSizeEstimation, reloads then with or without the inheriting SetSizeEstimationMode call; estimate == len(RawData()) after every step; non-trivial = a replacement changed the Tsize varint class, or the mtime is negative / has nanoseconds, or an add was rejected by the node, or a directory with metadata was reloaded under the global block mode (mode classes with type bits are executed but only counted)",
 	Quick: 15000, Thorough: 100000,
 	Gen: gen, Run: run,
 }
